@@ -1,7 +1,7 @@
 (* C19 — property theorems only. Each is closed by [exact]/[apply] of lemmas of Proofs*.v, or, for the
    refutations and examples, by evaluation of the executable model on a concrete witness. *)
 From Coq Require Import List ZArith Bool.
-From Gst Require Import C19.Model C19.Calcs C19.Spec C19.Proofs C19.ProofsSuccess C19.ProofsLoc C19.ProofsAlias C19.ProofsRestore C19.ProofsInst C19.Witness.
+From Gst Require Import C19.Model C19.Calcs C19.Spec C19.Proofs C19.ProofsSuccess C19.ProofsLoc C19.ProofsAlias C19.ProofsRestore C19.ProofsInst C19.ProofsExit C19.Witness.
 Import ListNotations.
 Local Open Scope Z_scope.
 
@@ -269,6 +269,91 @@ Theorem C19_CalcGridToGrid_success : forall (c : cfg) din dout fk s',
 Proof. intros c din dout fk s' Hi Ho. apply (success_generic (g2g c)); try assumption. apply wf_success_g2g. Qed.
 Print Assumptions C19_CalcGridToGrid_success.
 
+(* ---------------------------------------------------------------------------------------------
+   Every exit path of a successful _postprocess: dbin EXACTLY as it was.
+   For ANY calculator that registers no permanent variable in dbin and whose _postprocess is
+   "_cleanVariableDb(2); naming of variables of dbout" - whatever the branch taken, early returns included -
+   a completed run leaves dbin equal to the initial Db: same columns, uids, names, contents, ALL locator types
+   (hence the same space dimension), and well-formed. *)
+Theorem C19_success_dbin_exact : forall (c : calc) (din dout : db) (R : list op) (fk : nat) (s' : st),
+  Inv din -> Inv dout -> k_init c = [] ->
+  forallb (safe_op rb_all din dout) (k_pre c) = true -> forallb (safe_op rb_all din dout) (k_run c) = true ->
+  forallb no_perm_in (k_pre c) = true -> forallb no_perm_in (k_run c) = true ->
+  k_post c = OClean 2 :: R -> forallb rename_out R = true ->
+  calc_run c (init_st din dout false) 0 fk = (true, s') ->
+  db_eq (s_in s') din /\ Inv (s_in s').
+Proof. exact dbin_exact_plain. Qed.
+Print Assumptions C19_success_dbin_exact.
+
+(* the same with the DGM centring of the data: _postprocess must give the coordinate locators back (by name) on the
+   path that is taken; [R1], [R2]: naming of variables of dbout before / after the restoration *)
+Theorem C19_success_dbin_exact_dgm : forall (c : calc) (tch : Z -> bool) (din dout : db) (R1 R2 : list op) (fk : nat) (s' : st),
+  Inv din -> Inv dout -> tch L_X = false ->
+  (forall t, tch t = true -> getloc (d_locs din) t = []) -> (forall t, tch t = true -> getloc (d_locs dout) t = []) ->
+  d_grid din = false ->
+  NoDup (getloc (d_locs din) L_X) ->
+  (forall u, In u (getloc (d_locs din) L_X) -> has_col din u = true) ->
+  (forall u t, In u (getloc (d_locs din) L_X) -> t <> L_X -> ~ In u (getloc (d_locs din) t)) ->
+  k_init c = [] ->
+  safe_opsD tch rb_dgm din dout true (k_pre c) = true ->
+  safe_opsD tch rb_dgm din dout false (k_run c) = true ->
+  forallb no_perm_in (k_pre c) = true -> forallb no_perm_in (k_run c) = true ->
+  k_post c = OClean 2 :: R1 ++ ORestoreX :: R2 -> forallb rename_out R1 = true -> forallb rename_out R2 = true ->
+  calc_run c (init_st din dout false) 0 fk = (true, s') ->
+  db_eq (s_in s') din /\ Inv (s_in s').
+Proof. exact dbin_exact_dgm. Qed.
+Print Assumptions C19_success_dbin_exact_dgm.
+
+(* CalcKriging without DGM, ALL options and ALL branches of _postprocess (kriging with any subset of est / std / varz,
+   krigtest = single target with its early return, xvalid on two Dbs, test_neigh, linear combination, Bayes, profile) *)
+Theorem C19_CalcKriging_success_dbin_exact : forall (c : cfg) gout din dout fk s',
+  Inv din -> Inv dout -> g_dgm c = false ->
+  expand_noop L_F din dout = true -> expand_noop L_NOSTAT din dout = true ->
+  calc_run (kriging c gout) (init_st din dout false) 0 fk = (true, s') ->
+  db_eq (s_in s') din /\ Inv (s_in s').
+Proof. exact kriging_dbin_exact. Qed.
+Print Assumptions C19_CalcKriging_success_dbin_exact.
+
+(* CalcKriging with DGM: kriging (all targets) AND krigtest (single target: the early return of _postprocess gives
+   the coordinate locators back too - seeded change C19_2).  The class has no restoration on its cross-validation /
+   neighbourhood-test branches: no entry point combines them with DGM, hence the second hypothesis.
+   CalcSimuTurningBands with DGM (code with fix C19_7, without C19_8): the simulations at the data points and the
+   centred coordinates are deleted, the coordinate locators given back.
+   (one statement: printing the assumptions walks the same large proof terms once) *)
+Theorem C19_dgm_success_dbin_exact :
+  (forall (c : cfg) gout din dout fk s',
+     Inv din -> Inv dout -> g_dgm c = true ->
+     (0 <= g_single c \/ (g_xvalid c = false /\ g_neigh_only c = false)) ->
+     expand_noop L_F din dout = true -> expand_noop L_NOSTAT din dout = true ->
+     d_grid din = false -> NoDup (getloc (d_locs din) L_X) ->
+     (forall u, In u (getloc (d_locs din) L_X) -> has_col din u = true) ->
+     (forall u t, In u (getloc (d_locs din) L_X) -> t <> L_X -> ~ In u (getloc (d_locs din) t)) ->
+     calc_run (kriging c gout) (init_st din dout false) 0 fk = (true, s') ->
+     db_eq (s_in s') din /\ Inv (s_in s')) /\
+  (forall (c : cfg) gout din dout fk s',
+     Inv din -> Inv dout -> ver_bit c 1 = true -> ver_bit c 2 = false -> g_dgm c = true ->
+     getloc (d_locs din) L_SIMU = [] -> getloc (d_locs dout) L_SIMU = [] ->
+     expand_noop L_F din dout = true -> expand_noop L_NOSTAT din dout = true ->
+     d_grid din = false -> NoDup (getloc (d_locs din) L_X) ->
+     (forall u, In u (getloc (d_locs din) L_X) -> has_col din u = true) ->
+     (forall u t, In u (getloc (d_locs din) L_X) -> t <> L_X -> ~ In u (getloc (d_locs din) t)) ->
+     calc_run (simtub c gout) (init_st din dout false) 0 fk = (true, s') ->
+     db_eq (s_in s') din /\ Inv (s_in s')).
+Proof. split; [exact kriging_dgm_dbin_exact | exact simtub_dgm_dbin_exact]. Qed.
+Print Assumptions C19_dgm_success_dbin_exact.
+
+(* the theorems above are not vacuous (krigtest and kriging with DGM complete on the witnesses, both Dbs of krigtest
+   come back equal to the initial ones), and they do distinguish: a _postprocess whose single-target early return
+   comes BEFORE the restoration (seeded change C19_2) completes with a dbin that has lost its coordinate locators *)
+Example C19_krigtest_dgm_early_return_on_witnesses :
+  (let '(ok, s) := calc_run (kriging cfg_krigtest_dgm true) (init_st w_din w_dout false) 0 0%nat in
+   (ok, db_eqb (s_in s) w_din, db_eqb (s_out s) w_dout)) = (true, true, true) /\
+  (let '(ok, s) := calc_run (kriging cfg_dgm true) (init_st w_din w_dout false) 0 0%nat in
+   (ok, db_eqb (s_in s) w_din, ndim (s_in s))) = (true, true, 2) /\
+  (let '(ok, s) := calc_run (kriging_skipped_restore cfg_krigtest_dgm true) (init_st w_din w_dout false) 0 0%nat in
+   (ok, db_eqb (s_in s) w_din, getloc (d_locs (s_in s)) L_X, ndim (s_in s))) = (true, false, [], 0).
+Proof. vm_compute. repeat split; reflexivity. Qed.
+
 
 Theorem C19_CalcAnamTransform_success : forall (c : cfg) din dout fk s',
   Inv din -> Inv dout ->
@@ -276,12 +361,16 @@ Theorem C19_CalcAnamTransform_success : forall (c : cfg) din dout fk s',
 Proof. intros c din dout fk s' Hi Ho. apply (success_generic (anam c)); try assumption. apply wf_success_anam. Qed.
 Print Assumptions C19_CalcAnamTransform_success.
 
-(* --------------------------------------------------------------------------------------------- known findings
-   The faithful model still falsifies the property for these option combinations (KNOWN_FINDINGS.txt); each
-   witness is replayed on the real library by checks/C19.py. *)
+(* --------------------------------------------------------------------------------------------- refutations
+   Model variants that falsify the property.  Still the code of /repo (KNOWN_FINDINGS.txt, replayed on the real
+   library by checks/C19.py): the SIMU-locator family and CalcSimuEden.  The code-version flag g_ver = 0 variants
+   (external drift, CalcKrigingFactors, tessellation_poisson) describe the code BEFORE fixes C19_7 / C19_6 / C19_9,
+   now applied to /repo: checks/C19.py reads the version flags in the source, so that /repo is compared with the
+   repaired variants (example C19_proposed_fixes_on_witnesses); the theorems remain as the record of what the
+   former code did - and of what a revert of those repairs would do. *)
 Ltac refute_in := intros [H _]; vm_compute in H; discriminate.
 
-(* external drift known on the output grid only: ACalcInterpolator::_preprocess migrates it into dbin
+(* (before fix C19_7) external drift known on the output grid only: ACalcInterpolator::_preprocess migrates it into dbin
    (nested CalcMigrate, never registered, never removed): dbin is changed after a SUCCESS as well as after a failure *)
 Theorem C19_CalcKriging_external_drift_refuted : exists din dout s1 s2,
   Inv din /\ Inv dout /\
@@ -316,7 +405,7 @@ Proof.
 Qed.
 Print Assumptions C19_CalcSimuFFT_existing_simu_refuted.
 
-(* CalcKrigingFactors (pinned tree, g_ver bit 0 clear): _check leaves the Z locator to the first factor only and
+(* CalcKrigingFactors (before fix C19_6, g_ver bit 0 clear): _check leaves the Z locator to the first factor only and
    _rollback does not give it back (seeded observation, reproduced); with a change of support the centred copies and
    the X locators stay as well.  With fixes/C19_6.patch (bit 0 + g_rb2) the witnesses are restored: see the example below *)
 Theorem C19_CalcKrigingFactors_refuted : exists din dout fs fk s',
@@ -329,7 +418,7 @@ Proof.
 Qed.
 Print Assumptions C19_CalcKrigingFactors_refuted.
 
-(* tessellation_poisson: the nested simulation is left in the grid when no Poisson plane is drawn (and, the last column
+(* (before fix C19_9) tessellation_poisson: the nested simulation is left in the grid when no Poisson plane is drawn (and, the last column
    RANK being used as a UID, the wrong variable is deleted as soon as the grid has a uid hole) *)
 Theorem C19_CalcSimuPartition_poisson_refuted : exists din dout fs fk s',
   Inv din /\ Inv dout /\ calc_run (simu1 cfg_poisson true) (init_st din dout false) fs fk = (false, s') /\
